@@ -62,48 +62,48 @@ Begin == /\ ph = 0 /\ h <= Len(Rec)
          /\ pos' = [t \in Workers |-> 1] /\ ph' = 1
          /\ UNCHANGED h /\ UNCHANGED unused
 
-CallsOf(t) == IF t <= Len(Rec[h].calls) THEN Rec[h].calls[t] ELSE <<>>
-Pend(t) == pos[t] <= Len(CallsOf(t))
-HeadC(t) == CallsOf(t)[pos[t]]
+NoCall == [op |-> 0, s |-> 0, e |-> 0, r |-> 0, c |-> 0, t |-> 0, ids |-> <<>>]
 Adv(t) == pos' = [pos EXCEPT ![t] = @ + 1]
-\* a read whose row group has been handed out is ready: it touches no shared state and is taken eagerly
-Local(t) == Pend(t) /\ HeadC(t).op = 2 /\ HeadC(t).r \in 1..total /\ handed[HeadC(t).r] >= 1
-Ts == 1..Rec[h].T        \* the threads of the current history
-AnyLocal == \E t \in Ts : Local(t)
-\* no other pending object call returned before this one was invoked
-RealTimeOk(t) == \A u \in Ts \ {t} : Pend(u) => HeadC(u).e > HeadC(t).s
-PrevOp(t) == IF pos[t] > 1 THEN CallsOf(t)[pos[t] - 1] ELSE [op |-> 0, r |-> 0]
 
-ReadStep(t) ==
-  /\ ph = 1 /\ Local(t) /\ \A u \in Ts : u < t => ~Local(u)
-  /\ LET c == HeadC(t) IN
-       /\ c.r \in 1..total /\ handed[c.r] >= 1
-       /\ c.ids = Rec[h].rows[c.r]
-       /\ Rec[h].mode = 1 => PrevOp(t).op = 1 /\ PrevOp(t).r = c.r
-       /\ readcnt' = [readcnt EXCEPT ![c.r] = @ + 1]
-  /\ Adv(t) /\ UNCHANGED <<h, ph, queue, completed, total, handed>> /\ UNCHANGED unused
-
-GetStep(t) ==
-  /\ ph = 1 /\ ~AnyLocal /\ Pend(t) /\ HeadC(t).op = 1 /\ RealTimeOk(t)
-  /\ LET c == HeadC(t) IN
-       /\ c.r \in 0..R
-       /\ PopFront(c.r)
-       /\ handed' = IF c.r = 0 THEN handed ELSE [handed EXCEPT ![c.r] = @ + 1]
-  /\ Adv(t) /\ UNCHANGED <<h, ph, completed, total, readcnt>> /\ UNCHANGED unused
-
-CompleteStep(t) ==
-  /\ ph = 1 /\ ~AnyLocal /\ Pend(t) /\ HeadC(t).op = 3 /\ RealTimeOk(t)
-  /\ PrevOp(t).op = 2
-  /\ FetchAdd
-  /\ Adv(t) /\ UNCHANGED <<h, ph, queue, total, handed, readcnt>> /\ UNCHANGED unused
-
-ProgressStep(t) ==
-  /\ ph = 1 /\ ~AnyLocal /\ Pend(t) /\ HeadC(t).op = 4 /\ RealTimeOk(t)
-  /\ Progress(HeadC(t).c, HeadC(t).t)
-  /\ Adv(t) /\ UNCHANGED <<h, ph, queue, completed, total, handed, readcnt>> /\ UNCHANGED unused
+\* One step = one recorded call.  hd[t] is the next call of thread t (NoCall when t is through); everything is read off
+\* the current history once per state.
+Calls ==
+  /\ ph = 1
+  /\ LET H == Rec[h]
+         TT == 1..H.T
+         hd == [t \in TT |-> IF pos[t] <= Len(H.calls[t]) THEN H.calls[t][pos[t]] ELSE NoCall]
+         prev(t) == IF pos[t] > 1 THEN H.calls[t][pos[t] - 1] ELSE NoCall
+         \* a read whose row group has been handed out is ready: it touches no shared state and is taken eagerly
+         ready == {t \in TT : hd[t].op = 2 /\ hd[t].r \in 1..total /\ handed[hd[t].r] >= 1}
+         \* no other pending call returned before this one was invoked
+         RealTimeOk(t) == \A u \in TT \ {t} : hd[u].op # 0 => hd[u].e > hd[t].s
+     IN IF ready # {}
+        THEN LET t == CHOOSE x \in ready : \A y \in ready : x <= y
+                 c == hd[t]
+             IN \* ReadStep: read_row_group delivers exactly the rows of the row group (mode 1: the one this thread was just handed)
+                /\ c.ids = H.rows[c.r]
+                /\ H.mode = 1 => prev(t).op = 1 /\ prev(t).r = c.r
+                /\ readcnt' = [readcnt EXCEPT ![c.r] = @ + 1]
+                /\ Adv(t) /\ UNCHANGED <<h, ph, queue, completed, total, handed>> /\ UNCHANGED unused
+        ELSE \E t \in TT :
+               /\ hd[t].op \in {1, 3, 4} /\ RealTimeOk(t)
+               /\ LET c == hd[t] IN
+                    CASE c.op = 1 ->      \* GetStep: get_work() = PopFront with the recorded result
+                           /\ c.r \in 0..R
+                           /\ PopFront(c.r)
+                           /\ handed' = IF c.r = 0 THEN handed ELSE [handed EXCEPT ![c.r] = @ + 1]
+                           /\ UNCHANGED <<completed, readcnt>>
+                      [] c.op = 3 ->      \* CompleteStep: complete_work() = FetchAdd, after a read of this thread
+                           /\ prev(t).op = 2
+                           /\ FetchAdd
+                           /\ UNCHANGED <<queue, handed, readcnt>>
+                      [] c.op = 4 ->      \* ProgressStep: progress() = Progress with the recorded reading
+                           /\ Progress(c.c, c.t)
+                           /\ UNCHANGED <<queue, completed, handed, readcnt>>
+               /\ Adv(t) /\ UNCHANGED <<h, ph, total>> /\ UNCHANGED unused
 
 End ==
-  /\ ph = 1 /\ \A t \in Ts : ~Pend(t)
+  /\ ph = 1 /\ \A t \in 1..Rec[h].T : pos[t] > Len(Rec[h].calls[t])
   /\ queue = <<>>
   /\ \A r \in 1..total : handed[r] = 1 /\ readcnt[r] = 1
   /\ completed = total
@@ -111,7 +111,6 @@ End ==
   /\ h' = h + 1 /\ ph' = 0
   /\ UNCHANGED <<queue, completed, total, handed, readcnt, pos>> /\ UNCHANGED unused
 
-Calls == ph = 1 /\ \E t \in Ts : ReadStep(t) \/ GetStep(t) \/ CompleteStep(t) \/ ProgressStep(t)
 TNext == Begin \/ End \/ Calls
 TSpec == TInit /\ [][TNext]_tvars
 
